@@ -2,7 +2,10 @@
 # Runs the repository's pinned test suite with the verif guard OFF and compares the set of
 # passing tests with /root/.vp/BASELINE.json (stable_pass). Exit 0 iff every baseline test passes.
 export GOFLAGS=-mod=mod GOPROXY=off GOSUMDB=off GOTOOLCHAIN=local
-cd /repo && go test -mod=mod -json -vet=off -count=1 -timeout 25m ./... 2>/dev/null > /tmp/verif-baseline-$$.json
+# the suite leaves temporary directories behind: give it a TMPDIR of its own and remove it
+T=$(mktemp -d /tmp/verif-baseline-tmp.XXXXXX)
+cd /repo && TMPDIR=$T go test -mod=mod -json -vet=off -count=1 -timeout 25m ./... 2>/dev/null > /tmp/verif-baseline-$$.json
+rm -rf "$T"
 python3 - /tmp/verif-baseline-$$.json <<'PY'
 import json,sys
 passed=set()
